@@ -383,6 +383,34 @@ def jd(p):
     return {"n": p[0] < 0, "m": str(abs(p[0])), "s": p[1]}
 
 
+F13_WITNESS = {"zone": 'name = "Europe/Helsinki"', "journal": "1900-01-01\n a  1\n b\n"}
+
+
+def f13_probe(run):
+    """finding F13 (open): a named journal zone with a sub-minute offset (+01:39:49) is exported with seconds
+    in the offset, which the grammar rejects.  Outside cfg_ok (C06_subminute_zone_refuted is the model's
+    counterpart).  Reported as KNOWN-FINDING only if known-findings.jsonl lists it for C06; never a violation."""
+    req = {"conf": {"toml": J.make_toml(tz=F13_WITNESS["zone"])}, "inputs": [{"text": F13_WITNESS["journal"]}],
+           "ops": [{"op": "identity"}, {"op": "txns"}]}
+    st, s = session_of(harness_run([req])[0])
+    out = {"first": st}
+    if s is not None:
+        out["export"] = s[1]
+        req2 = dict(req)
+        req2["inputs"] = [{"text": s[1]}]
+        st2, s2 = session_of(harness_run([req2])[0])
+        out["second"] = st2
+        out["reproduces"] = (st2 == "rejected")
+    run.notes["F13_witness"] = out
+    for f in load_findings("C06"):
+        if f.get("id") == "F13" and f.get("status") == "open":
+            if out.get("reproduces"):
+                run.known_finding(f.get("what", "F13"))
+            else:
+                run.violation("known finding F13 no longer reproduces: model (cfg_ok hypothesis) and code disagree",
+                              {"witness": F13_WITNESS, "observed": out}, found_input=False)
+
+
 def main(run):
     info = proof_stage(run, "C06", extra_targets=["corr/C06_corr.vo"])
     harness_build()
@@ -426,6 +454,7 @@ def main(run):
         terms.append("c06_case (mkCfg %s %s) %s %s %s" % (g_Z(off), g_Z(dt), g_str(c["text"]), g_session(c["s1"]),
                                                         g_session(c.get("s2"))))
         idx.append(i)
+    f13_probe(run)
     # Decimal division contract
     dcs = div_cases(run, 60 if run.tier == "quick" else 1500)
     dres = harness_run([{"kind": "dec", "op": "div", "a": jd(a), "b": jd(b)} for a, b in dcs])
